@@ -635,7 +635,8 @@ func init() {
 		Prop:  "C09",
 		Level: "exploration",
 		Profiles: []sim.Profile{
-			{Name: "random", Weight: 1, Fn: c09Random},
+			{Name: "random", Weight: 3, Fn: c09Random},
+			{Name: "validation-cache", Weight: 1, Fn: c09ValidationCache},
 			{Name: "exhaustive-small", Prologue: true, Fn: c09Exhaustive},
 		},
 		Components: map[string][]string{
